@@ -26,14 +26,20 @@ def replay(ctx, binary, cfg, x, label, timeout=900, gno=0):
     s = vlib.handle_driver_results(ctx, res)
     if s.get("stuck_steps", 0) >= 3:
         raise vlib.Inconclusive("TIMEOUT", "%s: a goroutine the schedule says is runnable did not reach its gate (%s)" % (label, s.get("drift_samples")))
-    if s.get("gate_drift", 0) and not s.get("violating", 0):
-        raise vlib.Inconclusive("GATE-DRIFT", "%s: %d schedules left the model: %s" % (label, s["gate_drift"], s.get("drift_samples")))
+    if s.get("gate_drift", 0):
+        # a schedule that leaves the model's gate sequence is still judged on what its queries return;
+        # only when none of the drifted schedules shows a verdict violation is the drift itself the result
+        if not s.get("gate_drift_with_violation", 0):
+            raise vlib.Inconclusive("GATE-DRIFT", "%s: %d schedules left the model and none of them violated the verdict: %s" % (label, s["gate_drift"], s.get("drift_samples")))
+        ctx.notes.append("%s: %d schedules left the model's gate sequence, %d of them with a verdict violation: %s" %
+                         (label, s["gate_drift"], s["gate_drift_with_violation"], (s.get("drift_samples") or [""])[0]))
     if not s.get("queries_ok"):
         raise vlib.Inconclusive("VACUOUS", "%s: no query completed" % label)
     ctx.add("traces_validated_against_impl", int(s.get("replays", 0)))
     ctx.add("impl_steps", int(s.get("steps", 0)))
     ctx.add("queries_run", int(s.get("queries", 0)))
     ctx.add("queries_ok", int(s.get("queries_ok", 0)))
+    ctx.add("mempool_checktx_run", int(s.get("checktx_run", 0)))
     ctx.add("query_results_differing_from_code_model", int(s.get("query_drift", 0)))
     ctx.cov.setdefault("replays", []).append({"cfg": cfg, "x": x, "app": "gno.land" if gno else "plain BaseApp", "edges": len(r.traces), "behaviours": int(s.get("behaviours", 0)),
                                               "violating": int(s.get("violating", 0)), "by_key": s.get("violations_by_key")})
